@@ -18,7 +18,7 @@ KEYS = ["k1", "k2", "sesame"]
 
 # scenes that belong to a profile's subject are drawn more often there (half of the scenes of that profile)
 SCENE_BIAS = {
-    "kti": ["kick_repeat", "kick_ranks", "topic_lock", "invite_key", "invite_recreate", "invite_ban", "limit_invite", "halfop_mode"],
+    "kti": ["kick_repeat", "kick_ranks", "topic_lock", "invite_ranks", "invite_ranks", "invite_key", "invite_recreate", "invite_ban", "limit_invite", "halfop_mode"],
     "mode": ["ranks_ladder", "halfop_mode", "topic_lock", "moderated_prefix", "ban_case", "invite_key", "limit_invite", "kick_ranks"],
     "nick": ["voice_rename", "wallops_rename", "case_twins", "rename_masks", "pre_rename", "ban_case"],
     "join": ["invite_key", "invite_recreate", "invite_ban", "limit_invite", "quota_invisible", "rejoin_list", "ban_case", "case_twins"],
@@ -199,6 +199,8 @@ class Gen:
         r = self.r
         nick = nick or r.choice(NICKS)
         user = r.choice(["reg"] if nick == "reg" and r.random() < 0.8 else ["u" + nick[:2], "reg", "x"])
+        if user == "reg" and "reg" in self.cfg_users and r.random() < 0.3:
+            nick = r.choice(["Reg", "REG", "rEg", "reg2"])  # a configured user's mask is matched case-sensitively
         if r.random() < 0.3 and nick in NICKS:
             user = nick  # the common real-life case: user name = first nick (and so a substring of the source twice)
         steps = []
@@ -268,8 +270,8 @@ class Gen:
 
     # ------------------------------------------------------------------ scenes
     # short scripted interactions of two or three conditions that random choice rarely lines up
-    def new_conn(self):
-        if len(self.conns) >= 16:
+    def new_conn(self, limit=16):
+        if len(self.conns) >= limit:
             return None
         c = len(self.conns) + 1
         self.conns[c] = {"live": True, "nick": None, "done": False}
@@ -379,7 +381,9 @@ class Gen:
         r = self.r
         L = self.line
         regs = [c for c, x in self.conns.items() if x["live"] and x["done"] and x.get("nick")]
-        k = r.choice(["whowas_many", "ison_many", "bans_many", "joins_many", "invites_many", "members_many"])
+        k = r.choice(["whowas_many", "ison_many", "bans_many", "joins_many", "invites_many", "members_many", "names_long"])
+        if self.profile == "member" and r.random() < 0.4:
+            k = r.choice(["names_long", "members_many", "joins_many"])
         live = {x.get("nick") for x in self.conns.values() if x["live"] and x.get("nick")}
         if k == "whowas_many":
             # one nickname released again and again (session ends and renames away from it), then WHOWAS
@@ -430,6 +434,26 @@ class Gen:
             for ch in chans:
                 L(a, "MODE %s +i" % ch); L(a, "INVITE %s %s" % (nb, ch))
             L(b, "JOIN " + ",".join(chans[:len(chans) // 2 + 1])); L(b, "JOIN " + ",".join(chans))
+        elif k == "names_long":
+            # a roster whose names do not fit one line: many members with nicknames near NICKLEN
+            ch = "#longnames"
+            n = r.choice([6, 13, 14, 15])
+            ln = r.choice([90, 150, 160, 190])
+            made = []
+            for i in range(n):
+                c = self.new_conn(limit=40)
+                if c is None:
+                    break
+                if self.server_pw:
+                    L(c, "PASS " + self.server_pw)
+                nk = "n%02d" % i + "x" * ln
+                L(c, "NICK " + nk); L(c, "USER u%d 0 * :r" % i); L(c, "JOIN " + ch)
+                self.conns[c]["nick"] = nk; self.conns[c]["done"] = True
+                made.append(c)
+            if made:
+                L(made[0], "NAMES " + ch); L(made[-1], "WHO " + ch); L(made[0], "WHOIS " + self.conns[made[-1]]["nick"])
+                for c in made[1:]:
+                    L(c, "QUIT"); self.conns[c]["live"] = False
         elif k == "members_many":
             ch = "#crowd"
             for c in regs[:12]:
@@ -458,7 +482,7 @@ class Gen:
         k = r.choice(["invite_key", "invite_recreate", "invite_ban", "ranks_ladder", "halfop_mode", "quota_invisible",
                       "voice_rename", "wallops_rename", "flood_targets", "limit_invite", "case_twins", "kick_ranks",
                       "secret_whois", "oper_cycle", "moderated_prefix", "ban_case", "rejoin_list", "topic_lock",
-                      "rename_masks", "kick_repeat", "pre_rename"])
+                      "rename_masks", "kick_repeat", "pre_rename", "invite_ranks"])
         bias = SCENE_BIAS.get(self.profile)
         if bias and r.random() < 0.5:
             k = r.choice(bias)
@@ -555,7 +579,14 @@ class Gen:
             L(b, "KICK %s %s,%s" % (ch, nb, na))
         elif k == "secret_whois":
             L(a, "JOIN " + ch); L(a, "MODE %s +s" % ch); L(a, "JOIN #pub"); L(b, "JOIN #pub")
-            L(b, "WHOIS " + na); L(b, "WHO " + ch); L(b, "NAMES"); L(b, "LIST")
+            if r.random() < 0.5:
+                # an outsider holding an invitation (fresh or left over from an earlier channel of that name) is still
+                # an outsider
+                L(a, "INVITE %s %s" % (nb, ch))
+                if r.random() < 0.4 and c3:
+                    L(a, "PART " + ch); L(c3, "JOIN " + ch); L(c3, "MODE %s +s" % ch)
+            L(b, "WHOIS " + na); L(b, "WHO " + ch); L(b, "NAMES"); L(b, "LIST"); L(b, "NAMES " + ch)
+            L(b, "LIST " + ch); L(b, "TOPIC " + ch); L(b, "MODE " + ch)
         elif k == "oper_cycle":
             L(a, "OPER oper " + r.choice(["operpw", "bad"])); L(a, "OPER oper " + r.choice(["operpw", "bad"]))
             L(a, "MODE %s -o" % na); L(a, "OPER oper bad"); L(a, "KILL %s :x" % nb); L(a, "LUSERS")
@@ -569,6 +600,16 @@ class Gen:
             L(b, "PART " + ch); L(b, "JOIN " + ch); L(a, "MODE %s +e %s!*@*" % (ch, t)); L(b, "JOIN " + ch)
         elif k == "rejoin_list":
             L(a, "JOIN " + ch); L(b, "JOIN " + ch); L(a, "JOIN %s,#r9" % ch); L(b, "NAMES " + ch); L(b, "WHOIS " + na)
+        elif k == "invite_ranks":
+            # who may INVITE on an invite-only channel: the raw operator flag, whatever other ranks the member holds
+            L(a, "JOIN " + ch); L(b, "JOIN " + ch); L(a, "MODE %s +i" % ch)
+            L(a, "MODE %s +%s %s" % (ch, r.choice(["a", "q", "h", "v", "ah", "qv", "o", "ao"]), " ".join([nb] * 2)))
+            tgt = self.conns[c3]["nick"] if c3 else "ghost"
+            L(b, "INVITE %s %s" % (tgt, ch))
+            if r.random() < 0.6:
+                L(a, "MODE %s -o %s" % (ch, na)); L(a, "INVITE %s %s" % (tgt, ch))
+            if c3: L(c3, "JOIN " + ch)
+            L(b, "MODE %s -%s %s" % (ch, r.choice("aqo"), nb)); L(b, "INVITE %s %s" % (tgt, ch))
         elif k == "topic_lock":
             L(a, "JOIN " + ch); L(b, "JOIN " + ch); L(a, "MODE %s +t" % ch); L(b, "TOPIC %s :by member" % ch)
             L(a, "MODE %s +k first" % ch); L(a, "MODE %s +k second" % ch); L(a, "MODE " + ch)
